@@ -39,7 +39,7 @@ for prop in C01 C02 C03 C04 C05 C06 C07 C08 C09 C10 C11 C12 C13 C14 C15 C16 C17 
   cp evidence/$prop.json /tmp/evidence.$prop.keep
   JSV_ONLY=R_regression_replays ./run.sh $prop quick > /tmp/regress_verify.out 2> /tmp/regress_verify.err
   mv /tmp/evidence.$prop.keep evidence/$prop.json
-  for f in $(grep '^VIOLATION' /tmp/regress_verify.out | sed 's/.*replay=//'); do
+  for f in $(grep -a '^VIOLATION' /tmp/regress_verify.out | sed 's/.*replay=//'); do
     bad=$(python3 -c "import json,sys; print(json.load(open('$f'))['case'].get('file',''))")
     [ -n "$bad" ] && { echo "removing regress/$bad: does not pass on the unchanged tree" | tee -a $LOG; rm -f regress/$bad; }
   done
